@@ -106,3 +106,25 @@ def serde_agreement(R, rule, roots, floor, optional=(), transient=()):
         R.viol(rule, "instance-floor", "only %d derive-generated serde pairs found under %s (floor %d)" % (n, ", ".join(roots), floor))
     R.inst(rule, "K7 table agreement", "derived Serialize/Deserialize of %s and everything stored inside: same names, every field/variant written, unconditionally" % ", ".join(r.split("::")[-1] for r in roots), n, ok, {"pairs": rows})
     return ok
+
+
+def wire_layout(F, roots):
+    """{adt: [field / variant names in the order the derive-generated Serialize writes them]} over the type closure of `roots`.
+    With a compact (positional) serde format that order *is* the wire layout."""
+    tc = type_closure(F, list(roots))
+    out = {}
+    for a in sorted(tc):
+        adt = F.adts.get(a)
+        if not adt:
+            continue
+        ser = [b for b in F.bodies.values() if b.path.endswith("<impl serde::ser::Serialize for %s>::serialize" % a)]
+        if len(ser) != 1:
+            continue
+        W = []
+        for c in sorted(ser[0].calls_raw, key=lambda c: (c.get("bb", 0), c.get("line", 0))):
+            g = c["ngen"] or ""
+            if g.endswith(SER_CALLS) and g.startswith("serde::ser::"):
+                W.append(_name_of(c, not g.endswith("serialize_field")))
+        if W and all(w is not None for w in W):
+            out[a] = W
+    return out
